@@ -21,7 +21,7 @@ MANIFEST = dict(
          "tier) tests real rejection pools with an exact-binomial box test. SOURCE TIE: the acceptance step of "
          "RejectionProposal.populate (normalisation by np.nanmax, log-uniforms, np.where((log_w - log_u) >= 0), x[indices]) is "
          "regenerated literally, in the model's NaN/inf arithmetic, from the current source on every run (harness/c09_tx.py -> "
-         "Gen/PoolTx.lean) and rejection_accept_source_eq_model proves it selects exactly the pool of populateRejection; the plain arm of the while-loop of FlowProposal.populate (normalisation, uniforms, accept mask, count, slice write, counter) is translated too and plain_batch_step_source_eq_model proves it equal to the step of the model's plainLoop. Lean theorems over a bookkeeping model of the pool code — candidate batches, in-bounds flags, "
+         "Gen/PoolTx.lean) and rejection_accept_source_eq_model proves it selects exactly the pool of populateRejection; the plain arm of the while-loop of FlowProposal.populate (normalisation, uniforms, accept mask, count, slice write, counter) is translated too and plain_batch_step_source_eq_model proves it equal to the step of the model's plainLoop; one batch of the accumulating arm (accumulate_weights=True) likewise (acc_batch_step_source_eq_model = the step of accLoop, the transcendental gate being an input). Lean theorems over a bookkeeping model of the pool code — candidate batches, in-bounds flags, "
          "log-densities, log-uniforms, gate decisions and permutation keys are arbitrary inputs, floats carry NaN/±inf "
          "semantics — for all batch counts/sizes and op sequences: check_prior_bounds keeps exactly the in-bounds rows and "
          "every flow-pool point passed it (backward_pass(rescale=True); the x-prime-prior branch is not modelled); the plain loop of FlowProposal.populate writes exactly N points, every slot once, "
